@@ -107,7 +107,9 @@ class Ref:
                 return ('return', e > self.duration, self.snapshot())
             if method == 'split':
                 if self.splits:
-                    length = e - self.splits[-1][0]
+                    # a length is a duration: never negative, also when
+                    # the clock stepped back since the previous split
+                    length = max(0.0, e - self.splits[-1][0])
                 else:
                     length = e
                 new = tuple(self.splits) + ((e, length),)
@@ -433,7 +435,7 @@ def _compare(outcomes, val, nowvals, method, state, has_stop, has_dur,
         gl = ev(it.fields.get('_length'), chosen)
         if ge != we:
             return ('split elapsed %r, required %r' % (ge, we), sig)
-        if gl != wl and not (wl < 0 and gl == 0):
+        if gl != wl:
             return ('split length %r, required %r' % (gl, wl), sig)
     return (None, sig)
 
@@ -454,8 +456,7 @@ def _cmp_value(v, want, val, obj, nows):
             return 'returns %s, required a Split' % show(v)
         ge = ev(v.fields.get('_elapsed'), val)
         gl = ev(v.fields.get('_length'), val)
-        if ge != want[1] or (gl != want[2] and not (want[2] < 0 and
-                                                    gl == 0)):
+        if ge != want[1] or gl != want[2]:
             return 'returns Split(%r, %r), required Split(%r, %r)' % (
                 ge, gl, want[1], want[2])
         return None
